@@ -13,7 +13,7 @@ from .common import calls_resolving_to
 from .resultrun import ResultInterp, Tagged
 
 INFO = {
-    "explanation": "R07.6 (round 4): the feature transform that picks the nearest border voxel runs under the same (index) metric as the reconstructed distance - no sampling is handed to it. The ASSD call chain is interpreted over morphological terms (masks, structuring elements, erosions, borders, distance transforms): (R07.1) _average_symmetric_surface_distance is the arithmetic mean of exactly two directed terms, one per orientation; (R07.2) a border is mask XOR scipy.ndimage.binary_erosion(mask, structure=generate_binary_structure(mask.ndim, 1), iterations=1) with border_value absent/0 - outside the array counts as background - on the mask itself (only astype(bool)/atleast_1d before; no squeeze/reshape, no wrap-around shifts); (R07.3) each directed term is the mean of the distance transform of the complement of the REFERENCE border read at the PREDICTION border; (R07.4) _distance_transform_edt returns sqrt(sum over axis 0 of (feature index - own index)^2) with the squares taken in float64; (R07.5) the default connectivity reaching the structuring element is 1 along the whole wrapper chain. Per-instance crop before the metric call: one crop from both masks (R02.5) and a bounding box that never cuts foreground (R10.2), delegated. Also delegated: R10.3 (the per-instance crop covers both masks). Further delegated: R15.7 (no state kept between calls). Round 6: R07.4 enumerates every path of the distance transform under the input facts (at least one voxel to measure to; any other voxel may or may not be one): a raise on such an input is a violation; R07.1 uses that the border of a non-empty mask is non-empty. Round 7: the chain is judged per input class: identical masks give 0; both masks cropped by the box of their union keep borders and distances; a mask at most two voxels thick along an axis is its own border where the guard's helper is verified in the bounding-box domain to return last - first + 1 per axis; the two masks of a pair have one shape. Round 8: a border computed by hand from value changes along each axis (np.diff of the array with the generic axis moved to the front, or-ed into a boolean array through views) is decided by a small stencil domain: per generic axis the function must mark a differing successor (background behind the last voxel), a differing predecessor and the first voxel, and restrict the marks to foreground (R07.2 faces); the two masks of a pair have one dimensionality.",
+    "explanation": "R07.6 (round 4): the feature transform that picks the nearest border voxel runs under the same (index) metric as the reconstructed distance - no sampling is handed to it. The ASSD call chain is interpreted over morphological terms (masks, structuring elements, erosions, borders, distance transforms): (R07.1) _average_symmetric_surface_distance is the arithmetic mean of exactly two directed terms, one per orientation; (R07.2) a border is mask XOR scipy.ndimage.binary_erosion(mask, structure=generate_binary_structure(mask.ndim, 1), iterations=1) with border_value absent/0 - outside the array counts as background - on the mask itself (only astype(bool)/atleast_1d before; no squeeze/reshape, no wrap-around shifts); (R07.3) each directed term is the mean of the distance transform of the complement of the REFERENCE border read at the PREDICTION border; (R07.4) _distance_transform_edt returns sqrt(sum over axis 0 of (feature index - own index)^2) with the squares taken in float64; (R07.5) the default connectivity reaching the structuring element is 1 along the whole wrapper chain. Per-instance crop before the metric call: one crop from both masks (R02.5) and a bounding box that never cuts foreground (R10.2), delegated. Also delegated: R10.3 (the per-instance crop covers both masks). Further delegated: R15.7 (no state kept between calls). Round 6: R07.4 enumerates every path of the distance transform under the input facts (at least one voxel to measure to; any other voxel may or may not be one): a raise on such an input is a violation; R07.1 uses that the border of a non-empty mask is non-empty. Round 7: the chain is judged per input class: identical masks give 0; both masks cropped by the box of their union keep borders and distances; a mask at most two voxels thick along an axis is its own border where the guard's helper is verified in the bounding-box domain to return last - first + 1 per axis; the two masks of a pair have one shape. Round 8: a border computed by hand from value changes along each axis (np.diff of the array with the generic axis moved to the front, or-ed into a boolean array through views) is decided by a small stencil domain: per generic axis the function must mark a differing successor (background behind the last voxel), a differing predecessor and the first voxel, and restrict the marks to foreground (R07.2 faces); the two masks of a pair have one dimensionality. Round 9: the public scipy entry point distance_transform_edt(return_distances=False, return_indices=True) is the feature transform; R15.11 (stored closures that read a loop variable late) is a frame condition of every property - deprecated aliases installed in a loop must bind the function they stand for.",
     "trusted_base": ["scipy.ndimage.binary_erosion, generate_binary_structure, euclidean_feature_transform", "numpy elementwise arithmetic"],
     "assumptions": ["masks are non-empty (property precondition)"],
     "not_decided": ["the Euclidean feature transform itself", "floating-point rounding"],
